@@ -198,37 +198,7 @@ def suite_traces(chk: core.Check) -> None:
 # ------------------------------------------------------------------------------------------
 # part 3: the lexer, step by step, through the env-guarded hook in Lexer.run
 # ------------------------------------------------------------------------------------------
-def lexer_traces(chk: core.Check, tier: str, seed: int) -> None:
-    """MC: Lexer.tla over all short texts (offset / token / bracket / call-stack invariants, progress).
-    TRACE: every step of the real Lexer.run (hook: JSONPATH_RFC9535_VERIF=1 + a sink installed here) on the
-    syntax corpora is replayed through LexerDefs!Step by TLC and compared field by field."""
-    import os  # noqa: PLC0415
-    import random  # noqa: PLC0415
-    import subprocess  # noqa: PLC0415
-    import sys  # noqa: PLC0415
-
-    from .. import corpus, gen  # noqa: PLC0415
-    from . import common  # noqa: PLC0415
-
-    maxlen = 4 if tier == "quick" else 5
-    cfg = ("SPECIFICATION LSpec\nCONSTANTS\n  Alphabet = {36, 46, 91, 93, 63, 64, 40, 41, 39, 97, 49, 32, 61, 44, 42}\n"
-           f"  MaxLen = {maxlen}\nINVARIANT Inv_Offsets\nINVARIANT Inv_Tokens\nINVARIANT Inv_Brackets\nINVARIANT Inv_CallStack\n"
-           "PROPERTY Prog\nCHECK_DEADLOCK FALSE\n")
-    res = core.require_ok(core.run_tlc("Lexer", cfg, name="mc_lexer", heap="8g", timeout=3000), "Lexer")
-    chk.add_tlc(f"Lexer.tla over all texts '$'+w, |w|<={maxlen}, 15 symbols: offsets, tokens, brackets, call stack, progress", res)
-    # the hook is read at import time: record in a child process started with the guard on
-    rng = random.Random(seed)
-    texts = list(corpus.SEEDS) + corpus.repo_test_queries() + corpus.literal_queries() + corpus.skeletons(rng)
-    texts += corpus.valid_candidates(rng, 600 if tier == "quick" else 20000)
-    for s in list(texts[:300]):
-        texts += gen.neighbours(s, rng, 4)
-    texts = [t for t in dict.fromkeys(texts) if not any(0xD800 <= ord(c) <= 0xDFFF for c in t)]
-    sdir = os.path.join(core.scratch(), "lexer")
-    os.makedirs(sdir, exist_ok=True)
-    inp, outp = os.path.join(sdir, "texts.json"), os.path.join(sdir, "events.ndjson")
-    with open(inp, "w") as fh:
-        json.dump(texts, fh)
-    child = r'''
+LEX_CHILD = r'''
 import json, os, sys
 sys.path.insert(0, os.environ["VERIF_REPO"])
 from jsonpath_rfc9535 import lex
@@ -254,11 +224,51 @@ for t in texts:
                           "tokens": [{"t": tok.type_.name, "s": tok.index, "e": tok.index + len(tok.value)} for tok in tokens]}) + "\n")
 out.close()
 '''
+
+
+def record_lexer(texts):
+    """Run Lexer.run on each text in a child process started with the hook's guard on; one record per text."""
+    import os  # noqa: PLC0415
+    import subprocess  # noqa: PLC0415
+
+    sdir = os.path.join(core.scratch(), "lexer")
+    os.makedirs(sdir, exist_ok=True)
+    inp, outp = os.path.join(sdir, "texts.json"), os.path.join(sdir, "events.ndjson")
+    with open(inp, "w") as fh:
+        json.dump(texts, fh)
     env = dict(os.environ, JSONPATH_RFC9535_VERIF="1", VERIF_REPO=core.REPO, PYTHONDONTWRITEBYTECODE="1")
-    p = subprocess.run(["/venv/bin/python", "-c", child, inp, outp], env=env, capture_output=True, text=True)
+    p = subprocess.run(["/venv/bin/python", "-c", LEX_CHILD, inp, outp], env=env, capture_output=True, text=True)
     if p.returncode != 0:
         raise core.MachineryError("lexer recorder failed: " + p.stderr[-800:])
-    recs = [json.loads(line) for line in open(outp)]
+    return [json.loads(line) for line in open(outp)]
+
+
+def lexer_traces(chk: core.Check, tier: str, seed: int) -> None:
+    """MC: Lexer.tla over all short texts (offset / token / bracket / call-stack invariants, progress).
+    TRACE: every step of the real Lexer.run (hook: JSONPATH_RFC9535_VERIF=1 + a sink installed here) on the
+    syntax corpora is replayed through LexerDefs!Step by TLC and compared field by field."""
+    import os  # noqa: PLC0415
+    import random  # noqa: PLC0415
+    import subprocess  # noqa: PLC0415
+    import sys  # noqa: PLC0415
+
+    from .. import corpus, gen  # noqa: PLC0415
+    from . import common  # noqa: PLC0415
+
+    maxlen = 4 if tier == "quick" else 5
+    cfg = ("SPECIFICATION LSpec\nCONSTANTS\n  Alphabet = {36, 46, 91, 93, 63, 64, 40, 41, 39, 97, 49, 32, 61, 44, 42}\n"
+           f"  MaxLen = {maxlen}\nINVARIANT Inv_Offsets\nINVARIANT Inv_Tokens\nINVARIANT Inv_Brackets\nINVARIANT Inv_CallStack\n"
+           "PROPERTY Prog\nCHECK_DEADLOCK FALSE\n")
+    res = core.require_ok(core.run_tlc("Lexer", cfg, name="mc_lexer", heap="8g", timeout=3000), "Lexer")
+    chk.add_tlc(f"Lexer.tla over all texts '$'+w, |w|<={maxlen}, 15 symbols: offsets, tokens, brackets, call stack, progress", res)
+    # the hook is read at import time: record in a child process started with the guard on
+    rng = random.Random(seed)
+    texts = list(corpus.SEEDS) + corpus.repo_test_queries() + corpus.literal_queries() + corpus.skeletons(rng)
+    texts += corpus.valid_candidates(rng, 600 if tier == "quick" else 20000)
+    for s in list(texts[:300]):
+        texts += gen.neighbours(s, rng, 4)
+    texts = [t for t in dict.fromkeys(texts) if not any(0xD800 <= ord(c) <= 0xDFFF for c in t)]
+    recs = record_lexer(texts)
     chk.notes["lexer_runs_recorded"] = len(recs)
     chk.notes["lexer_steps_recorded"] = sum(len(r["events"]) for r in recs)
     chk.sample({"lexer_run": {"q": core.dec_text(recs[30]["q"]), "steps": [(e["fn"], e["next"], e["pos"]) for e in recs[30]["events"]][:6]}})
